@@ -37,7 +37,7 @@ STUBS = [
 ]
 OUTSIDE = ['q values as arbitrary decimals (float parsing realizes its input): menu of spellings in D',
            'Handlers |= other (not in the property list)', 'Accept headers outside the D menus / E alphabet and length bound']
-BUDGET = {'quick': 300, 'thorough': 1800}
+BUDGET = {'quick': 300, 'thorough': 900}
 
 
 # ---------------------------------------------------------------- A: pair score
